@@ -19,7 +19,8 @@ RULE = ("histories of 1..6 editing operations (list insert/append/pop, list-leve
         "placed next to, list-level inserts by a regex that matches the lines of one indent, list insert(k) of a shallow line, "
         "replace_text that keeps indentation and kind, delete. Banner/macro configs (3 seed configs + 2 with a macro / two banners) get "
         "every single operation except delete/append_to_family (their families are delimited, not indentation based; C07 compares "
-        "those trees): text effect and 'lines above the edit keep their parents' are judged there. Object-level operations take their object from the committed "
+        "those trees): text effect, 'lines above the edit keep their parents' and, for insertions at a closed position, 'every line "
+        "below keeps its parent or is captured' are judged there. Object-level operations take their object from the committed "
         "tree: while an uncommitted change is pending (auto_commit off) delete/append_to_family are skipped on both sides, because "
         "line numbers of held objects are documented to be stale until commit. non-trivial = a history with at least one successful "
         "mutation; distinct by request. The buckets `frame:*` count the situations of the parent-frame theorems that occurred.")
@@ -61,7 +62,12 @@ LEVEL_TEXT = ("Theorems (Lean 4, Ccp.Props.C06, for all states and payloads of t
               "(listInsertBefore_same_indent). (5) replace_text / re_sub: lines above the position keep their parents whatever the new text is; "
               "when the new text has the indentation and kind of the old one no parent changes. (6) For EVERY config — banner and macro families "
               "included, no restriction on config or payload, blank lines kept — no operation changes the parent of a line above the edited "
-              "position (lines_above_keep_parents, from prefix locality of passes 1-3: link_prefix). Exclusions, each with a decided "
+              "position (lines_above_keep_parents, from prefix locality of passes 1-3: link_prefix). (7) One line inserted into a config WITH "
+              "banner/macro families (blank lines kept) at a position that is not inside a family body (ClosedAt: every banner/macro start "
+              "above it finds its terminator above it; payload starts no family): every old line at or below the insertion point keeps its "
+              "parent, index-shifted, or is adopted by the new line — only if captured in the sense of captured_iff (InsertFrameW, by a "
+              "shifted simulation of the banner and macro walks); instantiated for insert(k), obj.insert_before/after and every successful "
+              "append_to_family. Exclusions, each with a decided "
               "counterexample: a comment directly below the insertion point / below a deleted line (C02's comment-under-a-deeper-line rule). "
               "With auto_commit on and ignore_blank_lines the texts are one bootstrap of the auto_commit-off result: a sublist of it keeping "
               "every non-blank line. The model is tied to the code by differential runs of whole histories (texts after every step, tree after "
@@ -73,9 +79,12 @@ LEVEL_NOTE = ("Trusted: Lean kernel, standard axioms, harness. Regexes are oracl
               "payload the index is characterised through the code's own helpers (last sibling / last_family_linenum). Known finding F10d: "
               "append_to_family on a comment or blank target (which heads no family) can make following lines children of the new line — "
               "the hypothesis 'the target is a configuration line' of the childless theorem is necessary; appendToFamily_parents says "
-              "which lines are captured. Configs (or payloads) with banner or macro starts: only the lines ABOVE the edited position are covered "
-              "(lines_above_keep_parents); for the lines below it the links are delimiter based and only C07's 'tree after commit = fresh "
-              "parse' applies. Not covered: states with uncommitted changes "
+              "which lines are captured. Configs with banner or macro starts: covered are the lines ABOVE any edit (lines_above_keep_parents) "
+              "and, for one-line insertions at a position outside every family body with a payload that starts no family, the lines below "
+              "(InsertFrameW; in the disjunctive form 'keeps its parent or is captured', because inside such configs the tree is not the "
+              "indentation tree). Not covered there: insertions inside a banner/macro body (a payload holding the delimiter ends the family "
+              "early — decided counterexample), payloads that start a family, delete / replace below the edit, ignore_blank_lines together "
+              "with families; for those only C07's 'tree after commit = fresh parse' applies. Not covered: states with uncommitted changes "
               "(auto_commit off), where no tree exists until the commit. The list-level frame is stated over positions of the new list "
               "(rank = old position), not as a closed formula old index -> new index.")
 ASSUMPTIONS = ["object handles are used only on a committed state", "auto_indent_width is the syntax default (1, or 2 for nxos)"]
@@ -316,6 +325,42 @@ def frame_delete(prev, par0, cur, par1, gone, delims):
     return f"delete-frame: surviving lines {bad} changed parent" if bad else None
 
 
+def is_start(t, ios):
+    return bool(T.BANNER_RE.search(t)) or (ios and t[:11] == "macro name ")
+
+
+def closed_at(lines, c, ios):
+    """`ClosedAt`: every banner / macro start above c finds its terminator above c"""
+    for p in range(min(c, len(lines))):
+        x = lines[p]
+        if T.BANNER_RE.search(x):
+            m = T.BANNER_DELIM_RE.search(x)
+            if m is not None:
+                d = m.group("bchar")
+                if len(x.split(d)) <= 2 and not any(d in lines[q].strip() for q in range(p + 1, c)):
+                    return False
+        if ios and x[:11] == "macro name " and not any(lines[q].rstrip() == "@" for q in range(p + 1, c)):
+            return False
+    return True
+
+
+def frame_insert_families(prev, par0, cur, par1, c, txt, delims):
+    """InsertFrameW: insertion at a closed position of a config with banner / macro families"""
+    if cur != prev[:c] + [txt] + prev[c:]:
+        return None
+    infos = [line_info(t, delims) for t in prev]
+    x = line_info(txt, delims)
+    bad = []
+    for j in range(c, len(prev)):
+        if j == c and infos[j][2]:
+            continue
+        keeps = par1[j + 1] == (par0[j] if par0[j] < c else par0[j] + 1)
+        adopted = par1[j + 1] == c and captured(infos, x, c, j)
+        if not (keeps or adopted):
+            bad.append(j)
+    return f"insert-frame (families): old lines {bad} neither keep their parent nor are captured by the new line" if bad else None
+
+
 def ins_pos(n, k):
     return max(0, n + k) if k < 0 else min(k, n)
 
@@ -417,9 +462,17 @@ def oracle(case, ans):
             if bad:
                 fails.append(f"{tag}: prefix-frame: lines {bad} above the edited position changed parent")
                 continue
-        if not is_plain(prev) or not is_plain(cur):
-            continue
         par0, par1 = dump_prev["parents"], dump_cur["parents"]
+        if not is_plain(prev) or not is_plain(cur):
+            # `insert_parents_families` / `objInsert_parents_families`: closed position, payload starts no family
+            ios = case["syntax"] == "ios"
+            if k in ("ins", "oib", "oia") and not ign and not is_start(op[2], ios):
+                c = ins_pos(n, op[1]) if k == "ins" else (at if k == "oib" else at + 1)
+                if closed_at(prev, c, ios):
+                    f = frame_insert_families(prev, par0, cur, par1, c, op[2], delims)
+                    if f:
+                        fails.append(f"{tag}: {f}")
+            continue
         f = None
         if k in ("ins", "oib", "oia") and not (ign and op[2].strip() == ""):
             c = ins_pos(n, op[1]) if k == "ins" else (at if k == "oib" else at + 1)
@@ -533,9 +586,16 @@ def buckets(case, ans):
     for idx, op in enumerate(case["ops"]):
         _, _, prev, dp, _ = steps[idx]
         status, _, cur, dc, at = steps[idx + 1]
-        if status != "ok" or dp is None or dc is None or not is_plain(prev) or not is_plain(cur):
+        if status != "ok" or dp is None or dc is None:
             continue
         k = op[0]
+        if not is_plain(prev) or not is_plain(cur):
+            ios = case["syntax"] == "ios"
+            if k in ("ins", "oib", "oia") and len(cur) == len(prev) + 1:
+                c = ins_pos(len(prev), op[1]) if k == "ins" else (at if k == "oib" else at + 1)
+                out.append("frame:families:%s:%s:%s" % (k, "closed" if closed_at(prev, c, ios) else "inside-body",
+                                                        "start-payload" if is_start(op[2], ios) else "plain-payload"))
+            continue
         infos = [line_info(t, delims) for t in prev]
         if k == "atf" and at is not None and len(cur) == len(prev) + 1:
             kids = [j for j, q in enumerate(dp["parents"]) if q == at and j != at]
